@@ -427,6 +427,10 @@ def snapshot(c, o=None, st=None):
             env["sample_lists"] = bool(c.tree._ll_tree.get_options() & _tskit.SAMPLE_LISTS)
             if ts.num_nodes <= 64:
                 env["parent"] = [int(x) for x in c.tree.parent_array]
+    if o is not None and o.name == "table.columns_min_len" and c.tc is not None:
+        a = st.get("args", {})
+        full = getattr(c.tc, a["table"]).asdict()
+        env["collens"] = {k: int(v.shape[0]) for k, v in full.items() if hasattr(v, "shape")}
     if o is not None and o.name in ("table.set_columns_len", "table.append_columns_len") and c.tc is not None:
         a = st.get("args", {})
         if a.get("table") in ("sites", "mutations"):
@@ -2205,6 +2209,61 @@ def _(c, which, pos, v):
     return t.has_index()
 
 
+REQUIRED = {"nodes": ["flags", "time"], "edges": ["left", "right", "parent", "child"],
+            "sites": ["position", "ancestral_state", "ancestral_state_offset"],
+            "mutations": ["site", "node", "derived_state", "derived_state_offset"], "individuals": ["flags"],
+            "populations": ["metadata", "metadata_offset"],
+            "migrations": ["left", "right", "node", "source", "dest", "time"],
+            "provenances": ["timestamp", "timestamp_offset", "record", "record_offset"]}
+
+
+def _resized(a, n):
+    import numpy as np
+    a = np.asarray(a)
+    return np.resize(a, n) if a.shape[0] else np.zeros(n, dtype=a.dtype)
+
+
+@op("table.columns_min_len", [("table", "raw"), ("col", "raw"), ("len", "raw"), ("how", "raw"), ("keep", "raw")], needs="tc")
+def _(c, table, col, len, how="set", keep="required"):
+    """set_columns / append_columns / fromdict with ONE column longer or shorter than the others
+    and the OPTIONAL columns absent (keep == "required": only the required columns and the one
+    under test are passed; keep == "all": every column)."""
+    import tskit
+    t = getattr(c.tc, table)
+    full = t.asdict()
+    full.pop("metadata_schema", None)
+    names = list(full) if keep == "all" else list(REQUIRED[table])
+    if col not in names:
+        names.append(col)
+        if col + "_offset" in full and col + "_offset" not in names:
+            names.append(col + "_offset")
+        if col.endswith("_offset") and col[:-7] not in names:
+            names.append(col[:-7])
+    d = {k: full[k] for k in names}
+    base = d[col].shape[0]
+    d[col] = _resized(d[col], _len_sym(len, base))
+    if how == "set":
+        t.set_columns(**d)
+    elif how == "append":
+        t.append_columns(**d)
+    else:
+        whole = c.tc.asdict()
+        td = {k: v for k, v in d.items()}
+        td["metadata_schema"] = whole[table].get("metadata_schema", "")
+        whole[table] = td
+        c.tc = tskit.TableCollection.fromdict(whole)
+        t = getattr(c.tc, table)
+    return [t.num_rows, sum(1 for _ in t)]
+
+
+@op("ts.relatedness_weighted", [("cols", "raw"), ("idx", "raw"), ("opts", "raw"), ("mode", "raw")])
+def _(c, cols, idx, opts=None, mode="branch"):
+    import numpy as np
+    W = np.arange(c.ts.num_samples * cols, dtype=float).reshape((c.ts.num_samples, cols)) + 1
+    tuples = [tuple(res_id(x, cols) for x in t) for t in idx]
+    return c.ts.genetic_relatedness_weighted(W, indexes=tuples, mode=mode, **(opts or {}))
+
+
 # ----------------------------------------------------------------------------------
 # bases
 # ----------------------------------------------------------------------------------
@@ -2392,6 +2451,15 @@ def expected_verdict(st, env):
         n = env_count(env, a.get("table"), "tc")
         if n is not None and _len_sym(a["len"], n) != n:
             return "raise"
+    if st["op"] == "table.columns_min_len" and env and env.get("collens") and a.get("len") in ("n-1", "n+1", "2n"):
+        base = env["collens"].get(a.get("col"))
+        ragged_data = a.get("col") in RAGGED_ALL          # data of a ragged column: any length is legal
+        t = a["table"]
+        present = list(env["collens"]) if a.get("keep") == "all" else list(REQUIRED[t]) + [a["col"]]
+        others = [k for k in present if k != a["col"] and (k in FIXEDCOLS[t] or k.endswith("_offset"))]
+        if base is not None and not ragged_data and others and _len_sym(a["len"], base) != base \
+                and env_count(env, t, "tc"):
+            return "raise"            # a row-count-bearing column that disagrees with another one
     if st["op"] in ("tree.map_mutations", "tree.ll_map_mutations") and env and env.get("ts"):
         g = a.get("g") or {}
         ns = env["ts"]["samples"]
@@ -2491,7 +2559,8 @@ class Monitor(Family):
     """Common machinery: observe = run the sequence in a grand-child under the sanitizers."""
     timeout = 120.0
     workers = max(1, min(8, int(os.environ.get("VERIF_WORKERS", "6") or 6)))
-    prelude = "From TskVerif Require Import Base.Common Gen.Generated C09.Guards C09.Guards2.\nOpen Scope Z_scope."
+    prelude = ("From Coq Require Import String.\nFrom TskVerif Require Import Base.Common Gen.Generated C09.Guards "
+               "C09.Guards2 C09.Guards3.\nOpen Scope Z_scope.")
     tail = ()
 
     def observe(self, case):
@@ -2700,6 +2769,20 @@ def model_term(k, st, r, obs, case):
             sets = [[res_id(x, N) for x in row] for row in a["sets"]]
             return "verdict_implies (verdict_of (gnn_init %s %s [%s] %s)) %s" % (
                 cz(N), _alloc(N), "; ".join(clist(x) for x in sets), clist([res_id(x, N) for x in a["focal"]]), v)
+        elif opn == "ts.relatedness_weighted":
+            cols = a["cols"]
+            flat = [res_id(x, cols) for t in a["idx"] for x in t]
+            if any(len(t) != 2 for t in a["idx"]) or not _ints(flat) or any(abs(x) >= 2 ** 31 for x in flat):
+                return None
+            return "verdict_implies (verdict_of (relatedness_weighted_entry C09_relatedness_weighted_checks_indexes %s %s)) %s" % (
+                cz(cols), clist(flat), v)
+        elif opn == "ts.statk" and a.get("indexes") is not None and a.get("stat") in MULTI_WAY:
+            k = MULTI_WAY[a["stat"]]
+            nsets = len(a["sets"])
+            flat = [res_id(x, nsets) for t in a["indexes"] for x in t]
+            if any(len(t) != k for t in a["indexes"]) or not a["indexes"] or not _ints(flat) or any(abs(x) >= 2 ** 31 for x in flat):
+                return None
+            return "verdict_implies (verdict_of (set_indexes_entry %s %s)) %s" % (cz(nsets), clist(flat), v)
         elif opn == "tree.ll_map_mutations":
             g = a["g"]
             if g.get("dtype", "int8") not in ("int8", "int32") or g.get("shape2"):
@@ -2738,6 +2821,17 @@ def model_term(k, st, r, obs, case):
             cur = "site_table_set_columns " + ("C09_site_metadata_offset_checked" if a["table"] == "sites"
                                                else "C09_mutation_metadata_offset_checked")
             m = "%s %s %s %s %s %s" % (cur, _alloc(cl["n"]), clist(cl["so"]), clist(mo), cz(cl["sl"]), cz(cl["ml"]))
+        elif opn == "table.columns_min_len" and "collens" in env:
+            cl = dict(env["collens"])
+            names = list(cl) if a.get("keep") == "all" else list(REQUIRED[a["table"]])
+            col = a["col"]
+            for extra in (col, col + "_offset", col[:-7] if col.endswith("_offset") else None):
+                if extra and extra in cl and extra not in names:
+                    names.append(extra)
+            given = {k: cl[k] for k in names}
+            given[col] = _len_sym(a["len"], cl[col])
+            return ("verdict_implies (verdict_of (table_columns_entry C09_columns_%s [%s])) %s" % (
+                a["table"], "; ".join('("%s"%%string, %s)' % (k, cz(x)) for k, x in given.items()), v))
         elif opn == "tc.subset":
             n = tcn["nodes"]
             m = "subset_entry %s %s %s %s" % (cbool(tcn["migrations"] > 0), cz(n), _alloc(n),
@@ -3049,6 +3143,20 @@ class Stats(Monitor):
                         {"op": "ts.statk", "args": {"stat": stat, "sets": four, "indexes": idx, "mode": mode},
                          "expect": "raise" if bad else "any"},
                         {"op": "probe.ts", "args": {}}]}
+        for cols in (1, 2, 3):
+            for idx in ([["0", "0"]], [["0", "n-1"]], [["0", "n"]], [["n", "0"]], [["0", "n+1"]], [["0", "-1"]], [["-1", "0"]],
+                        [["0", "-2"]], [["-3", "0"]], [["0", "max"]], [["min", "0"]], [["0", "7"]], [["n", "n"]], [],
+                        [["0", "0"], ["0", "n"]], [["0"]], [["0", "0", "0"]]):
+                # id == number of columns selects the appended column of ones: in bounds and pinned by
+                # tests/test_lowlevel.py, so no demand; everything beyond / negative must raise
+                bad = any(s in ("n+1", "-1", "-2", "-3", "max", "min", "7") for t in idx for s in t)
+                for mode in modes:
+                    for opts in ({}, {"centre": False}, {"polarised": True}):
+                        if tier == "quick" and opts and rng.random() < 0.6:
+                            continue
+                        yield {"base": rng.choice(bases), "steps": [
+                            {"op": "ts.relatedness_weighted", "args": {"cols": cols, "idx": idx, "opts": opts, "mode": mode},
+                             "expect": "raise" if bad else "any"}, {"op": "probe.ts", "args": {}}]}
         for idx in ([["0", "0"]], [["0", "n"]], [["-1", "0"]], [["max", "0"]], [["n", "n"]], [["0", "n+1"]]):
             bad = any(s in ("n", "-1", "max", "n+1") for t in idx for s in t)
             yield {"base": rng.choice(bases), "steps": [
@@ -3142,6 +3250,19 @@ class Tables(Monitor):
                                                                {"op": "table.iterate", "args": {"table": t}}] + T}
                 for how in ("off_first1", "off_last+1", "off_dec", "off_huge"):
                     yield {"base": rng.choice(bases), "steps": [{"op": "tc.fromdict_mangled", "args": {"table": t, "col": col + "_offset", "how": how}}] + T}
+        # every column of every table longer / shorter than the others, each alone, with the optional
+        # columns absent (seeded change C09-5) and with all columns present
+        for t in TABLES:
+            cols = FIXEDCOLS[t] + [c + "_offset" for c in RAGGED[t]]
+            for col in cols:
+                for ln in ("n-1", "n+1", "2n", "n") if tier != "quick" else ("n-1", "n+1", "n"):
+                    for how in ("set", "append", "fromdict"):
+                        for keep in ("required", "all"):
+                            if tier == "quick" and keep == "all" and how != "set":
+                                continue
+                            yield {"base": rng.choice(bases), "steps": [
+                                {"op": "table.columns_min_len", "args": {"table": t, "col": col, "len": ln, "how": how, "keep": keep}},
+                                {"op": "table.iterate", "args": {"table": t}}] + T}
         for name in ("tc.delete_sites",):
             yield from focused(rng, bases, name, tail=("probe.tc",))
         for es in ID_SYMS:
